@@ -10,6 +10,7 @@ import (
 	"net"
 	"strings"
 	"sync"
+	"syscall"
 	"time"
 )
 
@@ -31,7 +32,32 @@ type seenReq struct {
 	Auth    string // none | basic | digest | other
 	Cred    string // plain | md5 | wrong | -   (which password the credentials were computed from)
 	Session string
+	Transport string
 }
+
+// target classifies what the request is addressed to: b = the route URL itself (no Transport),
+// v / a = the video / audio track's control URL resolved against the route URL, with the TCP
+// interleaved transport on the track's channel pair, x = anything else
+func (r seenReq) target(base string) string {
+	switch r.Method {
+	case "SETUP":
+		switch {
+		case (r.URL == base+"/trackID=0" || r.URL == base+"/abs0") && r.Transport == "RTP/AVP/TCP;unicast;interleaved=0-1":
+			return "v"
+		case (r.URL == base+"/trackID=1" || r.URL == base+"/abs1") && r.Transport == "RTP/AVP/TCP;unicast;interleaved=2-3":
+			return "a"
+		}
+		return "x"
+	default:
+		if r.URL == base && r.Transport == "" {
+			return "b"
+		}
+		return "x"
+	}
+}
+
+// tok: the request as compared with the model: method, auth scheme, which password, Session echo, target
+func (r seenReq) tok(base string) string { return r.String() + ":" + r.target(base) }
 
 func (r seenReq) String() string {
 	s := "x"
@@ -70,11 +96,18 @@ type camera struct {
 }
 
 func newCamera(script []string, sdp string) (*camera, error) {
-	ln, err := net.Listen("tcp", "127.0.0.1:0")
+	var ln net.Listener
+	var err error
+	for try := 0; try < 100; try++ { // a loaded machine may be short of ports / descriptors for a moment
+		if ln, err = net.Listen("tcp", "127.0.0.1:0"); err == nil {
+			break
+		}
+		time.Sleep(100 * time.Millisecond)
+	}
 	if err != nil {
 		return nil, err
 	}
-	cam := &camera{ln: ln, script: script, sdp: sdp, accepts: make(chan *camConn, 8)}
+	cam := &camera{ln: ln, script: script, sdp: sdp, accepts: make(chan *camConn, 64)}
 	go cam.acceptLoop()
 	return cam, nil
 }
@@ -164,7 +197,7 @@ func (cc *camConn) readRequest() (*seenReq, map[string]string, error) {
 		if len(f) != 3 {
 			return &seenReq{Method: "MALFORMED"}, hdr, nil
 		}
-		r := &seenReq{Method: f[0], URL: f[1], CSeq: hdr["cseq"], Session: hdr["session"], Auth: "none", Cred: "-"}
+		r := &seenReq{Method: f[0], URL: f[1], CSeq: hdr["cseq"], Session: hdr["session"], Transport: hdr["transport"], Auth: "none", Cred: "-"}
 		if a, ok := hdr["authorization"]; ok {
 			r.Auth, r.Cred = classifyAuth(a, f[0], f[1])
 		}
@@ -345,4 +378,38 @@ func rtpPacket(ch byte, seq uint16, marker byte) []byte {
 	binary.BigEndian.PutUint16(out[2:], uint16(len(rtp)))
 	copy(out[4:], rtp)
 	return out
+}
+
+// afterPlay: number of requests received after the successful PLAY (keep-alives)
+func (cc *camConn) afterPlay() int {
+	cc.mu.Lock()
+	defer cc.mu.Unlock()
+	if cc.playedAt == 0 {
+		return 0
+	}
+	return len(cc.reqs) - cc.playedAt
+}
+
+// reservePort binds a loopback TCP port WITHOUT listening on it: a connection attempt is refused,
+// and — unlike a listener that was closed — nobody else (another scenario of this run, another
+// process on the machine) can be handed the port while the scenario runs.
+func reservePort() (addr string, release func(), err error) {
+	for try := 0; try < 100; try++ {
+		var fd int
+		fd, err = syscall.Socket(syscall.AF_INET, syscall.SOCK_STREAM, 0)
+		if err == nil {
+			if err = syscall.Bind(fd, &syscall.SockaddrInet4{Port: 0, Addr: [4]byte{127, 0, 0, 1}}); err == nil {
+				var sa syscall.Sockaddr
+				if sa, err = syscall.Getsockname(fd); err == nil {
+					if in4, ok := sa.(*syscall.SockaddrInet4); ok && in4.Port != 0 {
+						return fmt.Sprintf("127.0.0.1:%d", in4.Port), func() { syscall.Close(fd) }, nil
+					}
+					err = fmt.Errorf("no port")
+				}
+			}
+			syscall.Close(fd)
+		}
+		time.Sleep(100 * time.Millisecond)
+	}
+	return "", nil, err
 }
